@@ -484,6 +484,10 @@ Drift(r) ==
       [] OTHER -> FALSE
 
 (* ---------------------------------------------------------------------------------------------- known findings *)
+(* both repaired in /repo (c05-fix-1: load_sample_block looked at no other file when the first antitarget file was  *)
+(* empty; c05-fix-2: compare_chrom floored only the denominator of female_stat / male_stat, so one chrY bin with two    *)
+(* equally tiny statistics counted as strong evidence for female); the predicates stay as the characterisation of the  *)
+(* inputs on which the unrepaired code broke pool_reject_mismatch / pool_sexes_inferred                                *)
 KnownTriggers == {"FirstAntitargetEmptyOthersNot", "InferMaleWithY"}
 TriggerHolds(t, r) ==
     CASE t = "FirstAntitargetEmptyOthersNot" ->
